@@ -363,21 +363,30 @@ def judge_t_reference(ctx, obs, cfg, case, ev, ceil, cov, m, dof, n_rdm, n_patte
                              name, got.tolist(), w.tolist(), dof, ceiling, np.asarray(cov).tolist()))
 
 
-def observe_errorbars(R, shape):
+def observe_errorbars(R, shape, full=False):
     """error bars from Result.get_errorbars and from inference_util.get_errorbars (the routine behind the
-    plots) next to the get_sem / get_ci / get_means they must agree with"""
+    plots) next to the get_sem / get_ci / get_means they must agree with; full: also the default level
+    ('ci' without a number = 95 %)"""
     from rsatoolbox.util.inference_util import get_errorbars
     out = {'sem': _try(R.get_sem), 'means': _try(R.get_means)}
     kinds = [('sem', 't-test'), ('ci90', 't-test')]
-    if len(shape) == 2 and shape[0] >= 2:
-        kinds.append(('ci50', 'bootstrap'))
+    if shape[0] >= 2:
+        kinds.append(('ci40', 'bootstrap'))
+    if full:
+        kinds.append(('ci', 't-test'))
+        if shape[0] >= 2:
+            kinds.append(('CI', 'bootstrap'))
     for eb, tt in kinds:
         key = '%s:%s' % (eb, tt)
         out['result:' + key] = _try(lambda: np.array(R.get_errorbars(eb, tt), dtype=float))
-        out['util:' + key] = _try(lambda: np.array(
-            get_errorbars(R.model_var, R.evaluations, R.dof, eb, tt), dtype=float))
+        if tt != 'bootstrap' or len(shape) == 2:
+            # the util routine's bootstrap branch takes samples x models (its callers in vis average the
+            # further dimensions first); Result.get_errorbars is the accessor for > 2-D evaluations
+            out['util:' + key] = _try(lambda: np.array(
+                get_errorbars(R.model_var, R.evaluations, R.dof, eb, tt), dtype=float))
         if eb != 'sem':
-            out['ci:' + key] = _try(lambda: np.array(R.get_ci(float(eb[2:]) / 100, tt), dtype=float))
+            level = float(eb[2:]) / 100 if len(eb) > 2 else 0.95
+            out['ci:' + key] = _try(lambda: np.array(R.get_ci(level, tt), dtype=float))
     return out
 
 
@@ -392,7 +401,9 @@ def judge_errorbars(ctx, eb, cfg, case):
             continue
         kind, _, tt = rest.partition(':')
         op = 'Result.get_errorbars' if src == 'result' else 'inference_util.get_errorbars'
-        tag = 'type=%s,test=%s' % ('sem' if kind == 'sem' else 'ci', tt)
+        tag = 'type=%s,test=%s' % ('sem' if kind == 'sem' else ('ci' if len(kind) > 2 else 'ci-default-level'), tt)
+        if tt == 'bootstrap':
+            tag += ',ndim%s' % cfg.get('ndim', '=any')
         if kind == 'sem':
             want, partner = np.array([sem, sem]), 'get_sem'
         else:
@@ -407,6 +418,74 @@ def judge_errorbars(ctx, eb, cfg, case):
         if got.shape != want.shape or not allclose(got, want, TOL):
             ctx.fail('%s|%s|differs-from-%s' % (op, tag, partner), case,
                      '%s = %r, from %s and get_means: %r' % (key, got.tolist(), partner, want.tolist()))
+
+
+def judge_summary(ctx, R, tt, obs, cfg, case):
+    """every row of summary(tt) shows the model name, get_means, get_sem and the against-zero /
+    against-ceiling p-values of the accessors (3 decimals, '< 0.001' below that, 'nan' where undefined)"""
+    sig = lambda kind: 'Result.summary|test=%s|%s' % (tt, kind)   # noqa: E731
+    r = _try(lambda: R.summary(tt))
+    if r[0] != 'ok':
+        ctx.fail(sig('raises:%s' % r[1]), case, 'summary(%r) raised %s' % (tt, r[3]))
+        return
+    text = r[1]
+    m = R.n_model
+
+    def acc(name):
+        q = obs.get(name)
+        if q is None or q[0] != 'ok' or q[1] is None:
+            return np.full(m, np.nan)          # undefined / refused: the table must show nan
+        return np.asarray(q[1], dtype=float)
+    means, sems = acc('means'), acc('sem')
+    p_zero, p_noise = acc('p_zero:' + tt), acc('p_noise:' + tt)
+    if obs.get('p_zero:' + tt, ('',))[0] != 'ok' or obs.get('p_noise:' + tt, ('',))[0] != 'ok':
+        p_zero, p_noise = np.full(m, np.nan), np.full(m, np.nan)    # one refusal empties both columns
+    lines = text.split('\n')
+    start = [i for i, ln in enumerate(lines) if ln and set(ln) == {'-'}]
+    rows = lines[start[0] + 1:start[0] + 1 + m] if start else []
+    if len(rows) != m or any(row.count('|') != 4 for row in rows):
+        ctx.fail(sig('table-malformed'), case, text)
+        return
+    for i, row in enumerate(rows):
+        cells = [c.strip() for c in row.split('|')]
+        problems = []
+        if cells[0] != R.models[i].name:
+            problems.append('row %d is labelled %r, model is %r' % (i, cells[0], R.models[i].name))
+        try:
+            shown_mean, shown_sem = [float(x) for x in cells[1].split('±')]
+        except ValueError:
+            ctx.fail(sig('table-malformed'), case, text)
+            return
+        for label, shown, val in (('mean', shown_mean, means[i]), ('sem', shown_sem, sems[i])):
+            if np.isnan(val) != np.isnan(shown) or (not np.isnan(val) and abs(shown - val) > 0.0005 + 1e-9):
+                problems.append('%s shown %r, accessor %r' % (label, shown, float(val)))
+        for label, cell, val in (('p(zero)', cells[2], p_zero[i]), ('p(ceiling)', cells[3], p_noise[i])):
+            if cell.startswith('<'):
+                if not val < 0.001:
+                    problems.append('%s shown %r, accessor %r' % (label, cell, float(val)))
+            else:
+                shown = float(cell)
+                if np.isnan(val) != np.isnan(shown) or (not np.isnan(val) and (
+                        val < 0.001 or abs(shown - val) > 0.0005 + 1e-9)):
+                    problems.append('%s shown %r, accessor %r' % (label, cell, float(val)))
+        if problems:
+            ctx.fail(sig('disagrees-with-accessors'), case, '; '.join(problems) + '\n' + text)
+    if any(c.startswith('<') for row in rows for c in [x.strip() for x in row.split('|')]):
+        ctx.count('summary rows with p < 0.001')
+    r2 = _try(lambda: str(R))
+    if r2[0] == 'ok' and tt == 't-test' and r2[1] != text:
+        ctx.fail('Result.__str__|any|differs-from-summary', case, 'str(result) != result.summary()')
+
+
+def judge_plain_accessors(ctx, R, case):
+    """get_model_var / get_noise_ceil are the stored values, repr names the number of models"""
+    mv = R.get_model_var()
+    if not (mv is R.model_var or allclose(mv, R.model_var, 0.0)):
+        ctx.fail('Result.get_model_var|any|differs-from-model_var', case, '%r vs %r' % (mv, R.model_var))
+    if not allclose(R.get_noise_ceil(), R.noise_ceiling, 0.0):
+        ctx.fail('Result.get_noise_ceil|any|differs-from-noise_ceiling', case, '%r' % (R.get_noise_ceil(),))
+    if ('%d models' % R.n_model) not in repr(R):
+        ctx.fail('Result.__repr__|any|wrong-model-count', case, repr(R))
 
 
 # ----------------------------------------------------------------------------- family V
@@ -625,6 +704,7 @@ def run_T(case, ctx):
         if 't-test' in types:
             judge_t_reference(ctx, base, cfg, case, ev, ceil, cov, m, dof, n_rdm, n_pattern)
             judge_errorbars(ctx, observe_errorbars(R, shape), cfg, case)
+            judge_summary(ctx, R, 't-test', base, cfg, case)
         r = base['means']
         if r[0] == 'ok':
             want = ref.nan_mean_per_model(ev)
@@ -1142,6 +1222,7 @@ def run_X(case, ctx):
             cov[..., -1, -1] = cov[..., -1, -1] * 3.0 + 0.2
             cov[..., :-2, -1] *= -0.5
             cov[..., -1, :-2] *= -0.5
+    cov = cov * case.get('scale', 1.0)
     tshape = X_SHAPES[case['shape']]
     shape = (tshape[0], m) + tuple(tshape[1:])
     g = rng_for(ctx.seed, 'X-eval', m, case['shape'], case.get('fill', 0))
@@ -1158,7 +1239,10 @@ def run_X(case, ctx):
         judge_ranges(ctx, obs, cfg, case, m)
         judge_all_consistency(ctx, obs, cfg, case)
         judge_t_reference(ctx, obs, cfg, case, ev, ceil, cov, m, dof, n_rdm, n_pattern)
-        judge_errorbars(ctx, observe_errorbars(R, shape), cfg, case)
+        judge_errorbars(ctx, observe_errorbars(R, shape, full=True), cfg, case)
+        obs['means'] = _try(R.get_means)
+        judge_summary(ctx, R, 't-test', obs, cfg, case)
+        judge_plain_accessors(ctx, R, case)
         # the util-level routines on the same arrays
         mv, dv, nv = iu.extract_variances(cov.copy(), True, n_rdm, n_pattern)
         u = {}
@@ -1187,6 +1271,100 @@ def run_X(case, ctx):
                              '%s gives %r, the Result method %r' % (fn, b.tolist(), np.asarray(r[1]).tolist()))
         if obs.get('p_noise:t-test', ('',))[0] == 'ok':
             ctx.outcome(('X', np.round(np.asarray(obs['p_noise:t-test'][1], float), 6).tolist()))
+
+
+# ----------------------------------------------------------------------------- family N
+# Results WITHOUT variance estimates (plain cross-validation, eval_fixed on one RDM): means are defined,
+# every variance-based quantity must be reported as undefined (None / NaN) or refused - never a number -
+# by the Result methods and by the util routines alike; the variance-free tests keep working.
+def _refused_or_nan(r):
+    if r[0] == 'raises':
+        return r[2] != 'oracle'
+    v = r[1]
+    if v is None:
+        return True
+    if isinstance(v, (tuple, list)):
+        return all(x is None or np.isnan(np.asarray(x, dtype=float)).all() for x in v)
+    return bool(np.isnan(np.asarray(v, dtype=float)).all())
+
+
+def run_N(case, ctx):
+    from rsatoolbox.inference.result import Result
+    from rsatoolbox.util import inference_util as iu
+    shape = tuple(case['shape'])
+    m = shape[1]
+    ev, ceil = build_evaluations(dict(case, vals=['B', case.get('fill', 0)]), ctx.seed)
+    if not all(np.isfinite(np.moveaxis(ev, 1, 0)[j]).any() for j in range(m)):
+        ctx.exclude('all samples NaN')
+        return
+    cv = case.get('cv') or ('crossvalidation' if shape[0] == 1 else cv_for(shape))
+    types = [t for t in _S_types(shape) if t != 't-test']
+    if shape[0] == 1 and case.get('mask'):
+        types = [t for t in types if t != 'ranksum']     # rank-sum over subjects with missing evaluations: not claimed
+    cfg = {'var': 'none', 'cv': 'fixed/crossvalidation' if shape[0] == 1 else 'bootstrap',
+           'nc': 'fixed' if ceil.ndim == 1 else 'per-sample', 'ndim': '=2' if len(shape) == 2 else '>2'}
+    models = _models(m)
+    with ctx.guard('Result.__init__|var=none', case):
+        R = Result(models[0] if (m == 1 and case.get('single')) else models, ev.copy(), 'cosine', cv, ceil.copy(),
+                   variances=None, dof=case.get('dof', 0))
+        ctx.case(case)
+        obs = observe(R, types, with_var=False)
+        judge_raises(ctx, obs, cfg, case)
+        judge_ranges(ctx, obs, cfg, case, m, untied_matrix(ev) if 'bootstrap' in types else None)
+        judge_all_consistency(ctx, obs, cfg, case)
+        judge_plain_accessors(ctx, R, case)
+        want = ref.nan_mean_per_model(ev)
+        if obs['means'][0] == 'ok' and not allclose(np.asarray(obs['means'][1], dtype=float), want, TOL):
+            ctx.fail(sig_for('means', cfg, 'not-the-nan-aware-mean'), case,
+                     'get_means() = %r, NaN-aware mean %r' % (np.asarray(obs['means'][1]).tolist(), want.tolist()))
+        # variance-based quantities: undefined, never numbers
+        c = float(np.nanmean(ceil[0]))
+        undefined = {
+            'Result.model_var': ('ok', R.model_var), 'Result.diff_var': ('ok', R.diff_var),
+            'Result.noise_ceil_var': ('ok', R.noise_ceil_var), 'Result.get_sem': _try(R.get_sem),
+            'Result.get_ci': _try(lambda: R.get_ci(0.9, 't-test')),
+            'Result.get_errorbars[sem]': _try(lambda: R.get_errorbars('sem')),
+            'Result.get_errorbars[ci]': _try(lambda: R.get_errorbars('ci', 't-test')),
+            'Result.test_pairwise': _try(lambda: R.test_pairwise('t-test')),
+            'Result.test_zero': _try(lambda: R.test_zero('t-test')),
+            'Result.test_noise': _try(lambda: R.test_noise('t-test')),
+            'Result.test_all': _try(lambda: R.test_all('t-test')),
+            'inference_util.t_tests': _try(lambda: iu.t_tests(ev.copy(), None, 2)),
+            'inference_util.t_test_0': _try(lambda: iu.t_test_0(ev.copy(), None, 2)),
+            'inference_util.t_test_nc': _try(lambda: iu.t_test_nc(ev.copy(), None, c, 2)),
+            'inference_util.pair_tests': _try(lambda: iu.pair_tests(ev.copy(), 't-test', None, 2)),
+            'inference_util.zero_tests': _try(lambda: iu.zero_tests(ev.copy(), 't-test', None, 2)),
+            'inference_util.nc_tests': _try(lambda: iu.nc_tests(ev.copy(), ceil.copy(), 't-test', None, 2)),
+            'inference_util.all_tests': _try(lambda: iu.all_tests(ev.copy(), ceil.copy(), 't-test', None, None, None, 2)),
+            'inference_util.get_errorbars[sem]': _try(lambda: iu.get_errorbars(None, ev.copy(), 2, 'sem', 't-test')),
+            'inference_util.get_errorbars[ci]': _try(lambda: iu.get_errorbars(None, ev.copy(), 2, 'ci', 't-test')),
+        }
+        for op, r in undefined.items():
+            if r[0] == 'raises':
+                ctx.count('refused: %s %s' % (op, r[1]))
+            if not _refused_or_nan(r):
+                ctx.fail('%s|var=none|number-without-variance-estimate' % op, case, '%s returned %r' % (op, r[1]))
+        ueb = undefined['inference_util.get_errorbars[sem]']
+        if ueb[0] == 'ok' and np.asarray(ueb[1]).shape != (2, m):
+            ctx.fail('inference_util.get_errorbars|var=none|shape', case, 'shape %r' % (np.asarray(ueb[1]).shape,))
+        # summary: means shown, everything variance-based shown as nan; the variance-free tests agree with it
+        base = dict(obs)
+        base['sem'] = ('ok', None)
+        base['p_zero:t-test'] = base['p_noise:t-test'] = ('raises',)
+        judge_summary(ctx, R, 't-test', base, cfg, case)
+        for tt in types:
+            if tt == 'ranksum' or len(shape) == 2:
+                judge_summary(ctx, R, tt, base, cfg, case)
+        # requests that are not understood are refused, by every wrapper
+        for op, fn in (('Result.test_pairwise', lambda: R.test_pairwise('z-test')),
+                       ('Result.test_zero', lambda: R.test_zero('z-test')),
+                       ('Result.test_noise', lambda: R.test_noise('z-test')),
+                       ('Result.test_all', lambda: R.test_all('z-test')),
+                       ('inference_util.get_errorbars', lambda: iu.get_errorbars(np.ones(m), ev.copy(), 2, 'std', 't-test'))):
+            r = _try(fn)
+            if r[0] != 'raises' or r[2] == 'oracle':
+                ctx.fail('%s|unknown-request|not-refused' % op, case, 'returned %r' % (r[1],))
+        ctx.outcome(('N', np.round(want, 6).tolist()))
 
 
 # ----------------------------------------------------------------------------- enumeration
@@ -1337,6 +1515,9 @@ def shards(tier, seed):
         total = len(ALPHA[alpha]) ** cov_length(form, m + 2)
         for rng in _chunks(total, 400):
             out.append({'fam': 'X', 'm': m, 'form': form, 'alpha': alpha, 'range': rng})
+    # ---- N: Results without variance estimates
+    for m in (1, 2, 3):
+        out.append({'fam': 'N', 'm': m, 'fills': 4 if th else 2})
     # ---- M: monotonicity grids
     for m in (1, 2, 3):
         for dof in (1, 2, 7):
@@ -1415,6 +1596,19 @@ def run_shard(shard, ctx):
                                   'n_rdm': [None, 3][target % 2]}, ctx)
     elif fam == 'S':
         run_case(shard, ctx)
+    elif fam == 'N':
+        m = shard['m']
+        for fill in range(shard['fills']):
+            for shape, cv, ncf in (((1, m, 3), 'crossvalidation', 'boot'), ((1, m, 4), 'fixed', 'fixed'),
+                                   ((1, m, 1), 'fixed', 'fixed'), ((3, m), None, 'boot'), ((4, m), None, 'fixed'),
+                                   ((3, m, 2), None, 'boot'), ((4, m, 2, 2), None, 'boot')):
+                for mask in masks_for(shape)[:4]:
+                    case = {'fam': 'N', 'shape': list(shape), 'ncf': ncf, 'mask': mask, 'fill': fill}
+                    if cv:
+                        case['cv'] = cv
+                    run_case(case, ctx)
+                    if m == 1 and not mask:
+                        run_case(dict(case, single=True, dof=3), ctx)
     elif fam == 'X':
         m, form = shard['m'], shard['form']
         if 'range' in shard:
@@ -1427,6 +1621,9 @@ def run_shard(shard, ctx):
                     for sh in range(len(X_SHAPES)):
                         run_case({'fam': 'X', 'm': m, 'form': form, 'vals': ['B', fill], 'fill': fill, 'n': list(n),
                                   'dof': (1, 2, 7)[(k + sh) % 3], 'shape': sh}, ctx)
+                        if k % 3 == fill % 3:     # tiny variances: p-values below 0.001 in every column
+                            run_case({'fam': 'X', 'm': m, 'form': form, 'vals': ['B', fill], 'fill': fill,
+                                      'n': list(n), 'dof': (7, 2, 1)[(k + sh) % 3], 'shape': sh, 'scale': 1e-5}, ctx)
     else:
         raise ValueError(fam)
 
@@ -1445,5 +1642,7 @@ def run_case(case, ctx):
         run_S(case, ctx)
     elif fam == 'X':
         run_X(case, ctx)
+    elif fam == 'N':
+        run_N(case, ctx)
     else:
         raise ValueError(fam)
